@@ -81,7 +81,9 @@ class PatternToken(RegexpBaseToken):
     Would be useful to recognize argument in function e.g =COUNTIFS(A3:B3; "???le") or =COUNTIFS(A4:B7; "a*")
     """
     # a pattern is one string literal: it must not run on to the closing quote of a later literal
-    regexp = r'\"([^\"]*(?<![~])[?*]+[^\"]*)\"'
+    # (the text up to the first live wildcard is made of plain characters and of the escapes ~? ~* ~~: in "~~*" the
+    # tilde is escaped and the star is live)
+    regexp = r'\"((?:[^\"~?*]|~[?*~]|~(?![?*~]))*[?*][^\"]*)\"'
 
 
 # TODO добавить условие для локализации
